@@ -31,7 +31,8 @@ MECHANISMS = ["jaxley.solver_gate:save_exp", "jaxley.solver_gate:exponential_eul
               "jaxley.solver_gate:solve_gate_exponential", "jaxley.solver_gate:solve_inf_gate_exponential",
               "jaxley.channels.hh:_vtrap", "jaxley.channels.pospischil:efun"]
 MECHANISMS_REQUIRED = ["jaxley.solver_gate:save_exp", "jaxley.solver_gate:exponential_euler"]
-REQUIRED = {"quick": {"gate_contract": 100000}, "thorough": {"gate_contract": 5000000}}
+REQUIRED = {"quick": {"gate_contract": 100000},
+            "thorough": {"gate_contract": 500000}}
 NVEC = 384
 
 
